@@ -47,6 +47,9 @@ MSG = 'TMsg'         # a message in a track as far as tracks.py / write_track lo
 OPT_INT = 'OptInt'    # None or an int (running_status_byte)
 INFILE = 'PyFile'     # a binary file being read: unread bytes and position (tell())
 EXTMSG = 'M'          # a message object built by code outside the translated fragment (passed in as `ext`)
+PORT = 'P'             # a port object built by the backend module's class (outside the fragment)
+KWARGS = 'KwArgs'      # the keyword arguments of a call as a dict: name -> None or a string (backend.py: only `api` is looked at)
+DEVICE = 'Device'     # an entry of a backend's device list: {'name': str, 'is_input': bool, 'is_output': bool}
 DICT = 'PyDict'       # a dict with string keys whose values are ints, strings or tuples of ints (a message dict)
 
 
@@ -85,6 +88,8 @@ def lty(t):
         return '(%s M)' % t[1]
     if t == ('Text',):
         return '(List Int)'
+    if isinstance(t, tuple) and t[0] == 'Set':
+        return '(List %s)' % lty(t[1])
     if isinstance(t, tuple) and t[0] == 'Opt':
         return '(Option %s)' % lty(t[1])
     return t
@@ -233,6 +238,11 @@ class FnTranslator:
                     return f'{e.value.id}_{k.value}', t.fields[k.value]
                 raise Untranslatable('record key')
             base, t = self.expr(e.value)
+            if t == DEVICE:
+                k = e.slice
+                if isinstance(k, ast.Constant) and k.value in ('name', 'is_input', 'is_output'):
+                    return f'{base}.{k.value}', {'name': STR, 'is_input': BOOL, 'is_output': BOOL}[k.value]
+                raise Untranslatable('device key')
             if t == SPECROW:
                 k = e.slice
                 if isinstance(k, ast.Constant) and k.value in ('length', 'type', 'status_byte', 'value_names'):
@@ -338,6 +348,12 @@ class FnTranslator:
                 if isinstance(ix, ast.UnaryOp) and isinstance(ix.op, ast.USub) and isinstance(ix.operand, ast.Constant) and ix.operand.value == 1:
                     return f'(List.getLast? {xs} == some {k})', BOOL
             raise Untranslatable('guarded subscript form')
+        if isinstance(e, ast.BoolOp) and isinstance(e.op, ast.Or) and len(e.values) == 2 and isinstance(e.values[1], ast.Constant) \
+                and e.values[1].value is None:
+            a, t = self.expr(e.values[0])
+            if t == ('Opt', STR):
+                return f'(optStrOrNone {a})', t        # `x or None`: '' becomes None
+            raise Untranslatable('or None on ' + str(t))
         if isinstance(e, ast.BoolOp):
             parts = [self.cond(v) for v in e.values]
             if isinstance(e.op, ast.And) and self.pm:
@@ -388,6 +404,10 @@ class FnTranslator:
                     elif isinstance(rt, tuple) and rt[0] == 'FnDict' and pt == rt[1]:
                         c = f'({"dictHas" if pt == INT else "dictHasS"} {r} {prev})'
                     elif rt == LINT and pt == INT:
+                        c = f'(List.elem {prev} {r})'
+                    elif rt == KWARGS and pt == STR:
+                        c = f'(kwHas {r} {prev})'
+                    elif rt in (LIST(STR), ('Set', STR)) and pt == STR:
                         c = f'(List.elem {prev} {r})'
                     else:
                         raise Untranslatable('in on ' + str(rt))
@@ -471,6 +491,11 @@ class FnTranslator:
             if ta != tb:
                 raise Untranslatable('if-expression types')
             return f'(if {c} then {a} else {b})', ta
+        if isinstance(e, ast.SetComp):
+            v, t = self.expr(ast.copy_location(ast.ListComp(elt=e.elt, generators=e.generators), e))
+            if not (isinstance(t, tuple) and t[0] == 'List' and t[1] == STR):
+                raise Untranslatable('set of ' + str(t))
+            return v, ('Set', STR)       # only membership is asked of it: the list of its elements decides the same
         if isinstance(e, ast.ListComp):
             if len(e.generators) != 1 or len(e.generators[0].ifs) > 1 or not isinstance(e.generators[0].target, ast.Name):
                 raise Untranslatable('comprehension form')
@@ -591,6 +616,10 @@ class FnTranslator:
                 args = [self.expr(a) for a in e.args]
                 if all(t == INT for _, t in args):
                     return '(%s %s)' % (n, ' '.join(a for a, _ in args)), INT
+            if n == 'hasattr' and len(e.args) == 2 and isinstance(e.args[0], ast.Attribute) \
+                    and isinstance(e.args[0].value, ast.Name) and e.args[0].value.id == 'self' and e.args[0].attr == 'module' \
+                    and isinstance(e.args[1], ast.Constant) and e.args[1].value in getattr(self.unit, 'module_has', {}):
+                return self.unit.module_has[e.args[1].value], BOOL       # what the backend module defines is a parameter
             if n == 'sum' and len(e.args) == 1 and not e.keywords and isinstance(e.args[0], ast.GeneratorExp) \
                     and len(e.args[0].generators) == 1 and not e.args[0].generators[0].ifs \
                     and isinstance(e.args[0].generators[0].target, ast.Name):
@@ -628,6 +657,66 @@ class FnTranslator:
                 flat = self.flat_args(u, args, e.args)
                 return f'(← {u.lean_name} {flat})', u.ret
             raise Untranslatable('call of ' + n)
+        if isinstance(f, ast.Attribute) and isinstance(f.value, ast.Name) and f.value.id == 'ports' and f.attr == 'IOPort' \
+                and len(e.args) == 2 and not e.keywords and 'ports_IOPort' in getattr(self.unit, 'fn_params', {}):
+            a, ta = self.expr(e.args[0])
+            b, tb = self.expr(e.args[1])
+            if ta != PORT or tb != PORT:
+                raise Untranslatable('IOPort of ' + str((ta, tb)))
+            return f'(ports_IOPort {a} {b})', PORT          # the wrapper class of ports.py: a constructor, a parameter here
+        if isinstance(f, ast.Attribute) and isinstance(f.value, ast.Attribute) and isinstance(f.value.value, ast.Name) \
+                and f.value.value.id == 'self' and f.value.attr == 'module' and f.attr in getattr(self.unit, 'module_fns', {}) \
+                and not e.args and len(e.keywords) == 1 and e.keywords[0].arg is None:
+            # self.module.get_devices(**kw): a function of the backend module, a parameter of the unit
+            kw, kt = self.expr(e.keywords[0].value)
+            if kt != KWARGS:
+                raise Untranslatable('module function arguments')
+            nm, rt = self.unit.module_fns[f.attr]
+            return f'(← {nm} {kw})', rt
+        if isinstance(f, ast.Attribute) and isinstance(f.value, ast.Name) and isinstance(self.env.get(f.value.id, (None, None))[1], Rec) \
+                and getattr(self.unit, 'pycls', None) and not e.args and len(e.keywords) == 1 and e.keywords[0].arg is None \
+                and f.value.id not in getattr(self.unit, 'opaque', {}):
+            # self.method(**kw): the dict becomes the callee's **kwargs
+            mu = self.tr.unit_by_pyname(self.unit.file, f.attr, pycls=self.unit.pycls)
+            if mu is not None and mu.ret not in (None, NONE) and len(mu.params) == 2 and mu.params[1][1] == KWARGS:
+                kw, kt = self.expr(e.keywords[0].value)
+                if kt != KWARGS:
+                    raise Untranslatable('** of ' + str(kt))
+                self.self_args(mu, f.value.id, self.env[f.value.id][1])
+                rec_part = ' '.join(f'{f.value.id}_{k}' for k in mu.params[0][1].fields)
+                fnp = ' '.join(getattr(mu, 'fn_params', {}))
+                return f'(← {mu.lean_name} {rec_part} {kw} {fnp})'.replace('  ', ' ').replace(' )', ')'), mu.ret
+        if isinstance(f, ast.Attribute) and isinstance(f.value, ast.Attribute) and isinstance(f.value.value, ast.Name) \
+                and f.value.value.id == 'self' and f.value.attr == 'module' and f.attr in getattr(self.unit, 'module_ctors', {}) \
+                and len(e.args) == 1 and len(e.keywords) == 1 and e.keywords[0].arg is None:
+            # self.module.Input(name, **kw): the backend module is outside the fragment (reading `self.module` imports it on first
+            # use); what its port class does with the name and the keyword dict is a parameter of the unit
+            a, t = self.expr(e.args[0])
+            kw, kt = self.expr(e.keywords[0].value)
+            if t != ('Opt', STR) or kt != KWARGS:
+                raise Untranslatable('port constructor arguments')
+            return f'(← {self.unit.module_ctors[f.attr]} {a} {kw})', PORT
+        if isinstance(f, ast.Attribute) and isinstance(f.value, ast.Name) and isinstance(self.env.get(f.value.id, (None, None))[1], Rec) \
+                and getattr(self.unit, 'pycls', None) and not e.keywords \
+                and f.value.id not in getattr(self.unit, 'opaque', {}):
+            mu = self.tr.unit_by_pyname(self.unit.file, f.attr, pycls=self.unit.pycls)
+            if mu is not None and mu.ret not in (None, NONE) and len(mu.params) == 1 + len(e.args):
+                args = [self.expr(a) for a in e.args]
+                for (pn, pt), (a, t) in zip(mu.params[1:], args):
+                    if pt != t:
+                        raise Untranslatable(f'argument {pn} of {f.attr}: {t} where {pt} is declared')
+                sa = self.self_args(mu, f.value.id, self.env[f.value.id][1])
+                rec_part = ' '.join(f'{f.value.id}_{k}' for k in mu.params[0][1].fields)
+                fnp = ' '.join(getattr(mu, 'fn_params', {}))
+                return f'(← {mu.lean_name} {rec_part} {" ".join(a for a, _ in args)} {fnp})'.replace('  ', ' ').replace(' )', ')'), mu.ret
+        if isinstance(f, ast.Attribute) and f.attr == 'get' and isinstance(f.value, ast.Attribute) and f.value.attr == 'environ' \
+                and isinstance(f.value.value, ast.Name) and f.value.value.id == 'os' and len(e.args) == 1 and not e.keywords \
+                and 'environ_get' in getattr(self.unit, 'fn_params', {}):
+            # os.environ.get(name): the environment of the process is a parameter of the unit (None when the variable is unset)
+            a, t = self.expr(e.args[0])
+            if t != STR:
+                raise Untranslatable('environment variable name')
+            return f'(environ_get {a})', ('Opt', STR)
         if isinstance(f, ast.Attribute) and isinstance(f.value, ast.Name) and f.value.id in getattr(self.unit, 'opaque', {}):
             meths = self.unit.opaque[f.value.id].get('methods', {})
             if f.attr not in meths:
@@ -779,7 +868,7 @@ class FnTranslator:
         """the arguments of a translated method of the same object: the fields its `self` record has, taken from ours, and
         the function parameters it has, which must be ours too"""
         crec = callee.params[0][1]
-        if not (callee.params and callee.params[0][0] == 'self' and isinstance(crec, Rec)) or len(callee.params) != 1:
+        if not (callee.params and callee.params[0][0] == 'self' and isinstance(crec, Rec)):
             raise Untranslatable('method of self with arguments')
         for k, kt in crec.fields.items():
             if rec.fields.get(k) != kt:
@@ -876,6 +965,8 @@ class FnTranslator:
             return f'(!List.isEmpty {a})'
         if isinstance(t, tuple) and t[0] == 'Opt' and t[1] == EXTMSG:
             return f'(Option.isSome {a})'       # a message object is true (its __len__ is at least 1)
+        if t == ('Opt', STR):
+            return f'(optStrTruthy {a})'        # None and '' are false
         raise Untranslatable('truth value of ' + str(t))
 
     def cond(self, e):
@@ -908,6 +999,13 @@ class FnTranslator:
             if kt != STR:
                 raise Untranslatable('dict key type')
             out.append(f'{ind}{tgt.value.id} := dset {tgt.value.id} {k} ({self.dv(val, vt)})')
+            return
+        if isinstance(tgt, ast.Subscript) and isinstance(tgt.value, ast.Name) and self.env.get(tgt.value.id, (None, None))[1] == KWARGS \
+                and tgt.value.id in self.muts:
+            k, kt = self.expr(tgt.slice)
+            if kt != STR or vt != ('Opt', STR):
+                raise Untranslatable('keyword dict entry')
+            out.append(f'{ind}{tgt.value.id} := kwSet {tgt.value.id} {k} {val}')
             return
         if isinstance(tgt, ast.Name):
             n = tgt.id
@@ -1025,7 +1123,9 @@ class FnTranslator:
             vals = [f'{name}_{k}' for k in rec.fields] + [p for p, t in self.unit.params if is_file(t)]
             return vals[0] if len(vals) == 1 else '(' + ', '.join(vals) + ')'
         files = [p for p, t in self.unit.params if is_file(t)]
-        if e is None:
+        if isinstance(self.unit.ret, tuple) and self.unit.ret[0] == 'Opt' and (e is None or (isinstance(e, ast.Constant) and e.value is None)):
+            v = 'none'
+        elif e is None:
             v = '()'
         else:
             v, t = self.expr(e)
@@ -1111,6 +1211,13 @@ class FnTranslator:
             if n is None:
                 raise Untranslatable('raise form')
             return [f'{ind}throw Err.{n if n in ERRS else "Other"}']
+        if isinstance(s, ast.Assign) and len(s.targets) > 1 and isinstance(s.value, ast.Name) \
+                and all(isinstance(t, ast.Name) for t in s.targets):
+            # a = b = x with x a variable: the value is evaluated once and bound left to right
+            out = []
+            for t in s.targets:
+                out.extend(self.stmt(ast.copy_location(ast.Assign(targets=[t], value=s.value), s), ind))
+            return out
         if isinstance(s, ast.Assign):
             if len(s.targets) != 1:
                 raise Untranslatable('multiple targets')
@@ -1402,6 +1509,16 @@ class FnTranslator:
                 if vt not in (LINT, ('Text',)):
                     raise Untranslatable('write of ' + str(vt))
                 return [f'{ind}{f.value.id} := {f.value.id} ++ {v}']
+            if f.attr == 'update' and len(e.args) == 1 and not e.keywords and isinstance(f.value, ast.Name) \
+                    and self.env.get(f.value.id, (None, None))[1] == KWARGS and isinstance(e.args[0], ast.Call) \
+                    and isinstance(e.args[0].func, ast.Name) and e.args[0].func.id == 'dict' and not e.args[0].args \
+                    and all(k.arg is not None and k.arg != 'api' for k in e.args[0].keywords):
+                # kwargs.update(dict(virtual=..., callback=...)): entries under other names than `api`; KwArgs keeps the entries
+                # whose value is None or a string, and of those only `api` is ever looked at - nothing tracked changes
+                for k in e.args[0].keywords:
+                    if not isinstance(k.value, ast.Name):
+                        raise Untranslatable('update value with an effect')
+                return []
             if f.attr == 'update' and len(e.args) == 1 and not e.keywords and isinstance(f.value, ast.Name) \
                     and self.env.get(f.value.id, (None, None))[1] == DICT and f.value.id in self.muts:
                 pre = []
@@ -1751,7 +1868,9 @@ class FnTranslator:
                 self.env[en] = (en, ('Raw', et))
         decl = dict(u.params)
         ndefaults = len(fn.args.defaults)
-        required = pnames[:len(pnames) - ndefaults] if ndefaults else pnames
+        required = pnames[:len(pnames) - ndefaults] if ndefaults else list(pnames)
+        if fn.args.kwarg is not None:
+            pnames = pnames + [fn.args.kwarg.arg]        # **kwargs: a dict parameter, declared or (when unused) left out
         for p in pnames:
             if p in getattr(u, 'consts', {}):
                 continue
@@ -1781,6 +1900,8 @@ class FnTranslator:
                 params.append(f'({oname}_{a} : {lty(t)})')
             for m, t in od.get('methods', {}).items():
                 params.append(f'({oname}_{m} : Except Err {lty(t)})')
+        if getattr(u, 'type_params', None):
+            params.insert(0, u.type_params)
         if getattr(u, 'ext', False):
             params.insert(0, self.ext_sig())
         if getattr(u, 'ctxmgr', False):
@@ -2017,7 +2138,7 @@ class Translator:
     GROUPS = {'mido/messages/encode.py': 'Codec', 'mido/messages/decode.py': 'Codec', 'mido/messages/checks.py': 'Codec',
               'mido/tokenizer.py': 'Tok', 'mido/midifiles/meta.py': 'MetaNum', 'mido/midifiles/tracks.py': 'Tracks',
               'mido/midifiles/midifiles.py': 'FileIO', 'mido/parser.py': 'Parser', 'mido/ports.py': 'Ports', 'mido/syx.py': 'Syx', 'mido/sockets.py': 'Sockets'}
-    DEPS = {'Codec': [], 'Msg': ['Codec'], 'Tok': [], 'Parser': ['Tok'], 'Ports': [], 'Charset': [], 'Syx': ['Tok', 'Parser'], 'Sockets': [], 'Timing': [], 'MetaNum': [], 'Tracks': [], 'FileIO': ['MetaNum', 'Tracks']}
+    DEPS = {'Codec': [], 'Msg': ['Codec'], 'Tok': [], 'Parser': ['Tok'], 'Ports': [], 'Charset': [], 'Syx': ['Tok', 'Parser'], 'Sockets': [], 'Backend': [], 'Timing': [], 'MetaNum': [], 'Tracks': [], 'FileIO': ['MetaNum', 'Tracks']}
 
     def run_groups(self):
         """one generated file per group of source files, so that a function that cannot be translated (or an edit that
@@ -2183,6 +2304,47 @@ def units():
     u.extra = [('file_bytes', '(List Int)')]
     u.local_types = {'acc__': LIST(EXTMSG)}
     u.untyped_params = ('filename',)
+    u.hoist = True
+    U.append(u)
+    BK = 'mido/backends/backend.py'
+    u = Unit(BK, '_add_api', [('self', Rec({'api': ('Opt', STR)})), ('kwargs', KWARGS)], KWARGS, lean_name='Backend._add_api')
+    u.pycls, u.keep_self, u.group = 'Backend', True, 'Backend'
+    U.append(u)
+    u = Unit(BK, '_env', [('self', Rec({'use_environ': BOOL})), ('name', STR)], ('Opt', STR), lean_name='Backend._env')
+    u.pycls, u.keep_self, u.group = 'Backend', True, 'Backend'
+    u.fn_params = {'environ_get': 'String → Option String'}
+    U.append(u)
+    gd = {'module_has_get_devices': 'Bool', 'module_get_devices': 'KwArgs → Except Err (List Device)'}
+    u = Unit(BK, '_get_devices', [('self', Rec({'api': ('Opt', STR)})), ('kwargs', KWARGS)], LIST(DEVICE), lean_name='Backend._get_devices')
+    u.pycls, u.keep_self, u.group = 'Backend', True, 'Backend'
+    u.fn_params = dict(gd)
+    u.module_has = {'get_devices': 'module_has_get_devices'}
+    u.module_fns = {'get_devices': ('module_get_devices', LIST(DEVICE))}
+    U.append(u)
+    for nm in ('get_input_names', 'get_output_names', 'get_ioport_names'):
+        u = Unit(BK, nm, [('self', Rec({'api': ('Opt', STR)})), ('kwargs', KWARGS)], LIST(STR), lean_name=f'Backend.{nm}')
+        u.pycls, u.keep_self, u.group = 'Backend', True, 'Backend'
+        u.fn_params = dict(gd)
+        U.append(u)
+    for nm, ctor in (('open_input', 'Input'), ('open_output', 'Output')):
+        u = Unit(BK, nm, [('self', Rec({'api': ('Opt', STR), 'use_environ': BOOL})), ('name', ('Opt', STR)), ('kwargs', KWARGS)], PORT,
+                 lean_name=f'Backend.{nm}')
+        u.pycls, u.keep_self, u.group = 'Backend', True, 'Backend'
+        u.untyped_params = ('virtual', 'callback', 'autoreset')
+        u.type_params = '{P : Type}'
+        u.fn_params = {'environ_get': 'String → Option String', f'module_{ctor}': 'Option String → KwArgs → Except Err P'}
+        u.module_ctors = {ctor: f'module_{ctor}'}
+        U.append(u)
+    u = Unit(BK, 'open_ioport', [('self', Rec({'api': ('Opt', STR), 'use_environ': BOOL})), ('name', ('Opt', STR)), ('kwargs', KWARGS)], PORT,
+             lean_name='Backend.open_ioport')
+    u.pycls, u.keep_self, u.group = 'Backend', True, 'Backend'
+    u.untyped_params = ('virtual', 'callback', 'autoreset')
+    u.type_params = '{P : Type}'
+    u.fn_params = {'environ_get': 'String → Option String', 'module_has_IOPort': 'Bool', 'module_IOPort': 'Option String → KwArgs → Except Err P',
+                   'module_Input': 'Option String → KwArgs → Except Err P', 'module_Output': 'Option String → KwArgs → Except Err P',
+                   'ports_IOPort': 'P → P → P'}
+    u.module_ctors = {'IOPort': 'module_IOPort', 'Input': 'module_Input', 'Output': 'module_Output'}
+    u.module_has = {'IOPort': 'module_has_IOPort'}
     u.hoist = True
     U.append(u)
     u = Unit('mido/syx.py', 'write_syx_file', [('messages', LIST(EXTMSG)), ('plaintext', BOOL)], NONE)
